@@ -154,7 +154,7 @@ REQ = {
 def run(ctx):
     chk, fb = ctx.check, ctx.fb
     chk.rule("R10.1", "every shortcut outcome of Add/Mul/Div/pow is justified by the is_zero/is_one decisions on its path; the fall-through applies the impl's own operator name to (x, y)")
-    chk.rule("R10.2", "Sub->'-', Neg->unary '-', and every attach_unary_op! helper passes its own name")
+    chk.rule("R10.2", "Sub->'-', Neg->unary '-', BitAnd->'&', BitOr->'|', BitXor->'^', Rem->'%': one application of the table's operator to the operands, no shortcut; every attach_unary_op! helper passes its own name")
     chk.rule("R10.3", "unknown operator name => Err; lookup by name equality; Calculate wrappers convert -> apply -> convert back")
     chk.rule("R10.4", "the by-name application methods of Calculate (operate_unary, operate_binary) have one implementation: no expression type overrides them")
     no_overrides(chk, fb, "R10.4", "expression::calculate::Calculate", {"operate_unary", "operate_binary"}, "the homomorphism clauses R10.1-R10.3 are decided for the provided method only")
@@ -224,7 +224,9 @@ def run(ctx):
 
     # ---- R10.2 names
     n = 0
-    for trait, meth, want, kind in (("std::ops::Sub", "sub", "-", "operate_bin"), ("std::ops::Neg", "neg", "-", "operate_unary")):
+    for trait, meth, want, kind in (("std::ops::Sub", "sub", "-", "operate_bin"), ("std::ops::Neg", "neg", "-", "operate_unary"),
+                                    ("std::ops::BitAnd", "bitand", "&", "operate_bin"), ("std::ops::BitOr", "bitor", "|", "operate_bin"),
+                                    ("std::ops::BitXor", "bitxor", "^", "operate_bin"), ("std::ops::Rem", "rem", "%", "operate_bin")):
         bs = impl(trait, meth)
         if len(bs) != 1:
             chk.violation("R10.2", "anchor:%s" % meth, "impl %s for DeepEx not found" % trait)
@@ -260,7 +262,7 @@ def run(ctx):
             chk.ok("R10.2", "helper %s" % b["name"], "", loc(b["span"]))
         else:
             chk.violation("R10.2", "helper:%s" % b["name"], "helper method %s() applies unary operator %r" % (b["name"], nm), loc(b["span"]))
-    chk.floor("R10.2", "name sites", n, 25)
+    chk.floor("R10.2", "name sites", n, 29)
 
     # ---- R10.3 unknown name => Err
     for fname in ("find_bin_op", "find_unary_op"):
